@@ -7,3 +7,6 @@ impl TxVersion { fn clone(&self) -> (r: Self) ensures r == *self { TxVersion { t
             vstd::std_specs::hash::obeys_key_model::<Address>(),
             vstd::std_specs::hash::obeys_key_model::<usize>(),
 {}
+impl LocationAndType { fn clone(&self) -> (r: Self) ensures r == *self {
+    match self { LocationAndType::Basic(a) => LocationAndType::Basic(*a), LocationAndType::Storage(a, s) => LocationAndType::Storage(*a, *s),
+                 LocationAndType::StorageReset(a) => LocationAndType::StorageReset(*a), LocationAndType::Code(a) => LocationAndType::Code(*a) } } }
